@@ -13,6 +13,7 @@ import (
 	"time"
 	"unicode/utf8"
 
+	"github.com/daeuniverse/dae/component/outbound/dialer"
 	"github.com/daeuniverse/dae/config"
 	"github.com/daeuniverse/dae/pkg/config_parser"
 	"github.com/dlclark/regexp2"
@@ -541,6 +542,19 @@ func c14MultiTok(b *strings.Builder, pool []c14Node, gs []*config.Group) *c14Ora
 	return c14OracleTok(b, pool, pats, durs)
 }
 
+// the whole outbound configuration: `cfg POOL n (NAME POLICY LINES ANNOS){n} RETAB DURTAB`
+func c14CfgTok(b *strings.Builder, pool []c14Node, gs []*config.Group) *c14Oracle {
+	pats, durs := map[string]bool{}, map[string]bool{}
+	c14PoolTok(b, pool)
+	fmt.Fprintf(b, " %d", len(gs))
+	for _, g := range gs {
+		b.WriteString(" " + c14x(g.Name))
+		c14PolicyTok(b, g.Policy)
+		c14DefTok(b, g, pats, durs)
+	}
+	return c14OracleTok(b, pool, pats, durs)
+}
+
 // ---------------------------------------------------------------- independent oracles on the Go side
 
 // what the definition MEANS (written from the documentation, not from filter.go).
@@ -938,6 +952,61 @@ func c14GenPool(r *VRand, stats *VStats) []c14Node {
 	return nodes
 }
 
+// c14MutatePool: one subscription update between two (re)loads — a node renamed, moved to another
+// subscription, removed, added, offered a second time under another subscription, two nodes swapped,
+// or nothing at all.  Returns a fresh slice and the kind of edit.
+func c14MutatePool(r *VRand, nodes []c14Node) ([]c14Node, string) {
+	out := append([]c14Node{}, nodes...)
+	if len(out) == 0 {
+		return append(out, c14Node{Name: c14GenName(r, nil), Tag: c14Pick(r, c14Tags)}), "add"
+	}
+	k := r.Intn(len(out))
+	switch r.Intn(8) {
+	case 0:
+		return out, "unchanged"
+	case 1:
+		out[k].Name = c14GenName(r, out)
+		return out, "rename"
+	case 2:
+		out[k].Name += c14Pick(r, c14Tokens)
+		return out, "rename"
+	case 3:
+		out[k].Tag = c14Pick(r, c14Tags)
+		return out, "retag"
+	case 4:
+		return append(out[:k], out[k+1:]...), "remove"
+	case 5:
+		n := c14Node{Name: c14GenName(r, out), Tag: c14Pick(r, c14Tags)}
+		out = append(out, c14Node{})
+		copy(out[k+1:], out[k:])
+		out[k] = n
+		return out, "add"
+	case 6:
+		return append(out, c14Node{Name: out[k].Name, Tag: c14Pick(r, c14Tags)}), "second_offer"
+	default:
+		j := r.Intn(len(out))
+		out[k], out[j] = out[j], out[k]
+		return out, "swap"
+	}
+}
+
+// the members a definition means over a pool, as a multiset of (name, tag, latency): comparable
+// between two pools whatever their order
+func c14MemberBag(o *c14Oracle, pool []c14Node, g *config.Group) string {
+	ev := c14SpecEval(o, pool, g)
+	var l []string
+	if ev.Members != "-" {
+		for _, m := range strings.Split(ev.Members, ",") {
+			var i int
+			var lat int64
+			fmt.Sscanf(m, "%d:%d", &i, &lat)
+			l = append(l, fmt.Sprintf("%s/%s/%d", c14x(pool[i].Name), c14x(pool[i].Tag), lat))
+		}
+	}
+	sort.Strings(l)
+	return strings.Join(l, ",")
+}
+
 func c14Sub(r *VRand, s string) string {
 	if s == "" {
 		return ""
@@ -1305,6 +1374,64 @@ func c14GenDef(r *VRand, pool []c14Node, stats *VStats) *c14Def {
 }
 
 // c14Invalidate makes one more item of the definition invalid, at a random place.
+// c14Twin: a copy of a definition that differs in ONE place — the annotation of a line, a negation,
+// a value, the order of two lines, the policy — or in nothing.  Two groups of one configuration that
+// share their filter text (or almost) are what a per-pool memo keyed too coarsely confuses.
+func c14Twin(r *VRand, d *c14Def, stats *VStats) *c14Def {
+	t := &c14Def{Policy: d.Policy, Over: d.Over}
+	for _, l := range d.Lines {
+		nl := make([]c14Func, len(l))
+		for i, f := range l {
+			nl[i] = c14Func{Name: f.Name, Not: f.Not, Params: append([]c14Param{}, f.Params...)}
+		}
+		t.Lines = append(t.Lines, nl)
+	}
+	for _, a := range d.Annos {
+		t.Annos = append(t.Annos, append([]c14Param{}, a...))
+	}
+	if len(t.Lines) == 0 || len(t.Annos) != len(t.Lines) {
+		t.Policy = c14Pick(r, []string{"min", "random", "min_avg10", "min_moving_avg"})
+		stats.Inc("twin.policy")
+		return t
+	}
+	j := r.Intn(len(t.Lines))
+	switch x := r.Intn(10); {
+	case x < 4: // same filter lines, another annotation
+		switch {
+		case len(t.Annos[j]) == 0 || r.Bool():
+			t.Annos[j] = []c14Param{{Key: "add_latency", Val: c14Pick(r, []string{"7ms", "-2ms", "1s", "250us"})}}
+		default:
+			t.Annos[j] = nil
+		}
+		stats.Inc("twin.annotation")
+	case x < 5 && len(t.Lines[j]) > 0:
+		k := r.Intn(len(t.Lines[j]))
+		t.Lines[j][k].Not = !t.Lines[j][k].Not
+		stats.Inc("twin.negation")
+	case x < 7 && len(t.Lines[j]) > 0:
+		k := r.Intn(len(t.Lines[j]))
+		if n := len(t.Lines[j][k].Params); n > 0 {
+			q := r.Intn(n)
+			t.Lines[j][k].Params[q].Val += c14Pick(r, []string{"1", "-", "k", "x"})
+			if t.Lines[j][k].Params[q].Key == "regex" {
+				t.Lines[j][k].Params[q].Val = c14QuoteMeta(strings.ToValidUTF8(t.Lines[j][k].Params[q].Val, ""))
+			}
+		}
+		stats.Inc("twin.value")
+	case x < 8 && len(t.Lines) >= 2:
+		i := r.Intn(len(t.Lines))
+		t.Lines[i], t.Lines[j] = t.Lines[j], t.Lines[i]
+		t.Annos[i], t.Annos[j] = t.Annos[j], t.Annos[i]
+		stats.Inc("twin.line_order")
+	case x < 9:
+		t.Policy = c14Pick(r, []string{"min", "random", "min_avg10", "min_moving_avg"})
+		stats.Inc("twin.policy")
+	default:
+		stats.Inc("twin.identical")
+	}
+	return t
+}
+
 func c14Invalidate(r *VRand, d *c14Def, stats *VStats) {
 	if len(d.Lines) == 0 {
 		return
@@ -1372,6 +1499,49 @@ func c14LenientPolicy(p any) bool {
 	return false
 }
 
+// c14Offsets: the EFFECTIVE latency offsets of a built group — what each of its AliveDialerSets
+// (one per standard network type, two slots aliased) copied from the annotations NewDialerGroup was
+// given — member by member, in member order.  `none` = no alive set at all (policy fixed keeps no
+// alive state); every set must answer the same offsets.  Read as the selection code reads the map
+// (a missing entry is 0), so a set that does not store zero offsets is indistinguishable.
+func c14Offsets(sets [8]*dialer.AliveDialerSet, members []*dialer.Dialer, idxOf func(*dialer.Dialer) (int, bool)) string {
+	nSets := 0
+	for _, a := range sets {
+		if a != nil {
+			nSets++
+		}
+	}
+	if nSets == 0 {
+		return "none"
+	}
+	if nSets != len(sets) {
+		return fmt.Sprintf("sets:%d/%d", nSets, len(sets))
+	}
+	first := ""
+	for k, a := range sets {
+		one := "-"
+		if len(members) > 0 {
+			parts := make([]string, 0, len(members))
+			for _, d := range members {
+				idx := "?"
+				if i, ok := idxOf(d); ok {
+					idx = fmt.Sprint(i)
+				}
+				// read as the selection code reads it: `dialerToLatencyOffset[d]`, a missing entry is 0
+				v, _ := a.VerifC14LatencyOffset(d)
+				parts = append(parts, fmt.Sprintf("%s:%d", idx, int64(v)))
+			}
+			one = strings.Join(parts, ",")
+		}
+		if k == 0 {
+			first = one
+		} else if one != first {
+			return "DISAGREE(" + first + "|" + one + ")"
+		}
+	}
+	return first
+}
+
 func c14GroupStats(stats *VStats, gr string) {
 	f := strings.Fields(gr)
 	if len(f) == 0 {
@@ -1383,7 +1553,21 @@ func c14GroupStats(stats *VStats, gr string) {
 	case "ferr":
 		stats.Inc("group.filter_error")
 	case "ok":
+		if strings.HasPrefix(f[1], "ids=") {
+			return
+		}
 		stats.Inc("group.built")
+		for _, x := range f {
+			if strings.HasPrefix(x, "off=") && x != "off=none" && x != "off=-" {
+				stats.Inc("group.built_with_offset_table")
+				for _, e := range strings.Split(x[4:], ",") {
+					if !strings.HasSuffix(e, ":0") {
+						stats.Inc("discrim.group_with_nonzero_effective_offset")
+						break
+					}
+				}
+			}
+		}
 		if len(f) >= 4 && strings.HasPrefix(f[1], "pol=fixed") {
 			switch s := strings.TrimPrefix(f[3], "sel="); s {
 			case "range", "empty":
